@@ -1,18 +1,22 @@
 // gen_c07: translator for property C07.  Reads /repo/x/crosschain/keeper/*.go (current tree) and writes
 // coq/gen/Gen_EndBlock.v:
-//   * what expression each of the three slashing loops hands to SlashOracle (arg_kind),
-//   * the order of phases in Keeper.EndBlocker,
-//   * every panic( / Must*( site in keeper functions reachable (by method name) from EndBlocker.
+//   - what expression each of the three slashing loops hands to SlashOracle (arg_kind),
+//   - the order of phases in Keeper.EndBlocker,
+//   - every panic( / Must*( site in keeper functions reachable (by method name) from EndBlocker.
+//
 // Fails loudly when the shape it expects is gone.
 package main
 
 import (
+	"bytes"
 	"fmt"
 	"go/ast"
 	"go/parser"
+	"go/printer"
 	"go/token"
 	"os"
 	"path/filepath"
+	"regexp"
 	"sort"
 	"strings"
 )
@@ -160,9 +164,42 @@ func main() {
 		})
 	}
 
+	// 4. the rendering of the power difference that isNeedOracleSetRequest parses back as a LegacyDec
+	precision := "None"
+	if fd, ok := funcs["isNeedOracleSetRequest"]; ok {
+		ast.Inspect(fd.Body, func(n ast.Node) bool {
+			call, ok := n.(*ast.CallExpr)
+			if !ok {
+				return true
+			}
+			if sel, ok := call.Fun.(*ast.SelectorExpr); ok && sel.Sel.Name == "Sprintf" && len(call.Args) >= 1 {
+				if lit, ok := call.Args[0].(*ast.BasicLit); ok {
+					if m := regexp.MustCompile(`^"%\.(\d+)f"$`).FindStringSubmatch(lit.Value); m != nil {
+						precision = "Some " + m[1]
+					}
+				}
+			}
+			return true
+		})
+	} else {
+		die("isNeedOracleSetRequest not found")
+	}
+
+	// 5. the tail of gov Tally: divisions and early-return guards in source order
+	tallySteps, loopDivs := tallyTail(filepath.Join(repo, "x/gov/keeper/tally.go"))
+
 	var sb strings.Builder
-	sb.WriteString("(* generated by harness/gen_c07 from x/crosschain/keeper/*.go — do not edit *)\n")
-	sb.WriteString("From Coq Require Import List String.\nFrom FxV Require Import model.M_EndBlock.\nImport ListNotations.\nOpen Scope string_scope.\n\n")
+	sb.WriteString("(* generated by harness/gen_c07 from x/crosschain/keeper/*.go and x/gov/keeper/tally.go — do not edit *)\n")
+	sb.WriteString("From Coq Require Import ZArith List String.\nFrom FxV Require Import model.M_EndBlock model.M_Tally.\nImport ListNotations.\nOpen Scope string_scope.\n\n")
+	sb.WriteString("Definition gen_powerdiff_precision : option Z := " + strings.Replace(precision, "Some ", "Some ", 1) + "%Z.\n")
+	sb.WriteString("Definition gen_tally_steps : list step := [" + strings.Join(tallySteps, "; ") + "].\n")
+	{
+		var qs []string
+		for _, x := range loopDivs {
+			qs = append(qs, "\""+x+"\"")
+		}
+		sb.WriteString("Definition gen_tally_loop_divisors : list string := [" + strings.Join(qs, "; ") + "].\n\n")
+	}
 	sb.WriteString(fmt.Sprintf("Definition gen_slash_args : slash_args :=\n  {| sa_oracle_set := %s; sa_batch := %s; sa_bridge_call := %s |}.\n\n", kOS, kB, kBC))
 	q := func(xs []string) string {
 		var qs []string
@@ -182,4 +219,117 @@ func main() {
 	if err := os.WriteFile(filepath.Join(out, "Gen_EndBlock.v"), []byte(sb.String()), 0o644); err != nil {
 		die("%v", err)
 	}
+}
+
+func src(fset *token.FileSet, n ast.Node) string {
+	var b bytes.Buffer
+	_ = printer.Fprint(&b, fset, n)
+	return strings.Join(strings.Fields(b.String()), "")
+}
+
+// tallyTail returns the step list of Tally after `tallyResults = v1.NewTallyResultFromMap(results)` and
+// the divisor expressions of the vote-summing loops before it.
+func tallyTail(file string) (steps []string, loopDivs []string) {
+	fset := token.NewFileSet()
+	f, err := parser.ParseFile(fset, file, nil, 0)
+	if err != nil {
+		die("parse %s: %v", file, err)
+	}
+	var tally *ast.FuncDecl
+	for _, d := range f.Decls {
+		if fd, ok := d.(*ast.FuncDecl); ok && fd.Name.Name == "Tally" {
+			tally = fd
+		}
+	}
+	if tally == nil {
+		die("Tally not found in %s", file)
+	}
+	divs := func(n ast.Node) []string {
+		var out []string
+		ast.Inspect(n, func(x ast.Node) bool {
+			if call, ok := x.(*ast.CallExpr); ok {
+				if sel, ok := call.Fun.(*ast.SelectorExpr); ok && (sel.Sel.Name == "Quo" || sel.Sel.Name == "QuoInt" || sel.Sel.Name == "QuoTruncate" || sel.Sel.Name == "QuoRaw" || sel.Sel.Name == "QuoInt64") && len(call.Args) == 1 {
+					out = append(out, src(fset, call.Args[0]))
+				}
+			}
+			return true
+		})
+		return out
+	}
+	divStep := func(d string) string {
+		switch d {
+		case "math.LegacyNewDecFromInt(totalBonded)":
+			return "SDiv DBonded"
+		case "totalVotingPower":
+			return "SDiv DTotal"
+		case "totalVotingPower.Sub(results[v1.OptionAbstain])":
+			return "SDiv DNonAbstain"
+		}
+		return "SDiv DOther"
+	}
+	endsWithReturn := func(b *ast.BlockStmt) bool {
+		if len(b.List) == 0 {
+			return false
+		}
+		_, ok := b.List[len(b.List)-1].(*ast.ReturnStmt)
+		return ok
+	}
+	start := -1
+	for i, st := range tally.Body.List {
+		if as, ok := st.(*ast.AssignStmt); ok && strings.Contains(src(fset, as), "tallyResults=v1.NewTallyResultFromMap(results)") {
+			start = i
+		}
+	}
+	if start < 0 {
+		die("Tally: marker statement `tallyResults = v1.NewTallyResultFromMap(results)` not found")
+	}
+	for _, st := range tally.Body.List[:start] {
+		loopDivs = append(loopDivs, divs(st)...)
+	}
+	for _, st := range tally.Body.List[start+1:] {
+		switch s := st.(type) {
+		case *ast.IfStmt:
+			cond := src(fset, s.Cond)
+			if s.Init != nil {
+				for _, d := range divs(s.Init) {
+					steps = append(steps, divStep(d))
+				}
+			}
+			for _, d := range divs(s.Cond) {
+				steps = append(steps, divStep(d))
+			}
+			if cond == "err!=nil" {
+				continue
+			}
+			if endsWithReturn(s.Body) && s.Else == nil {
+				switch cond {
+				case "totalBonded.IsZero()":
+					steps = append(steps, "SGuard GBondedZero")
+				case "percentVoting.LT(quorum)":
+					steps = append(steps, "SGuard GQuorum")
+				case "totalVotingPower.Sub(results[v1.OptionAbstain]).Equal(math.LegacyZeroDec())":
+					steps = append(steps, "SGuard GAllAbstain")
+				default:
+					steps = append(steps, "SGuard GOther")
+				}
+				for _, d := range divs(s.Body) {
+					steps = append(steps, divStep(d))
+				}
+			} else {
+				for _, d := range divs(s.Body) {
+					steps = append(steps, divStep(d))
+				}
+				if s.Else != nil {
+					for _, d := range divs(s.Else) {
+						steps = append(steps, divStep(d))
+					}
+				}
+			}
+		default:
+			for _, d := range divs(st) {
+				steps = append(steps, divStep(d))
+			}
+		}
+	}
+	return steps, loopDivs
 }
